@@ -513,8 +513,14 @@ template <typename Class>
 Class* unwrap_ptr(const mxArray* obj, const string& propertyName) {
 
   mxArray* mxh = mxGetProperty(obj,0, propertyName.c_str());
-  Class* x = reinterpret_cast<Class*> (mxGetData(mxh));
-  return x;
+  if (mxGetClassID(mxh) != mxUINT32OR64_CLASS || mxIsComplex(mxh)
+    || mxGetM(mxh) != 1 || mxGetN(mxh) != 1) error(
+    "Parameter is not an Shared type.");
+
+  // The property holds the address of a heap-allocated shared_ptr (see
+  // unwrap_shared_ptr); the raw pointer is the object that one owns.
+  std::shared_ptr<Class>* spp = *reinterpret_cast<std::shared_ptr<Class>**> (mxGetData(mxh));
+  return spp->get();
 }
 
 //// throw an error if unwrap_shared_ptr is attempted for an Eigen Vector
